@@ -333,7 +333,7 @@ example : demoMulti = withOutputKeys demoMulti [] [] "success" multiKvs := rfl
 def demoMultiSwapped : Wf :=
   { withOutputKeys demoMulti [] [] "success" multiKvs.reverse with steps := demoMulti.steps.reverse }
 
-example : sizeOf' (prepare po demoMulti) = (66, 85) ∧ sizeOf' (prepare po demoMultiSwapped) = (66, 85) := by decide +kernel
+example : sizeOf' (prepare po demoMulti) = (66, 87) ∧ sizeOf' (prepare po demoMultiSwapped) = (66, 87) := by decide +kernel
 
 /-- whichever key is visited first, `b` is connected to the output, and both tagged fields keep their own group -/
 example : ("steps.b.outputs.success", "outputs.success", Dep.and) ∈ impliedEdges po demoMultiSwapped
